@@ -29,8 +29,9 @@ HEADER = ("From Coq Require Import ZArith QArith List Bool.\nFrom CV Require Imp
 
 FLAGS = {1: "tie:Data()!=model", 2: "tie:model-predicts-panic", 4: "prop:not-well-formed", 8: "prop:arc-fields-invalid",
          16: "prop:grid-cell-misplaced", 32: "info:not-canonical", 64: "prop:builder-panic", 128: "prop:traced-geometry-differs",
-         256: "tie:cmdLen-table", 512: "prop:raw-walker-out-of-range", 1024: "prop:pen-position-lost-after-MoveTo+Close"}
-PROP_MASK = 4 | 8 | 16 | 64 | 128 | 512 | 1024
+         256: "tie:cmdLen-table", 512: "prop:raw-walker-out-of-range", 1024: "prop:pen-position-lost-after-MoveTo+Close",
+         2048: "prop:Arc-does-not-trace-the-requested-ellipse"}
+PROP_MASK = 4 | 8 | 16 | 64 | 128 | 512 | 1024 | 2048
 TIE_MASK = 1 | 2 | 256
 
 # findings of the observation half that belong to another property's check (run and reported, not decided here)
